@@ -269,9 +269,9 @@ def run_C04(run):
     # every call history of up to L calls on ONE compiled expression, for every
     # expression of the pool of stateful constructs; iterators abandoned after
     # every prefix; contexts in the same and in another document
-    run.hist("C04", 4 if q else 5, nslots=2, maxiters=3, docs_per=1 if q else 3)
+    run.hist("C04", 4 if q else 5, nslots=2, maxiters=3, docs_per=1)
     # the same node-set expressions as operands evaluated in place (scalar results): E;E;E...
-    run.hist("C04ops", 3 if q else 4, nslots=2, maxiters=4, docs_per=2 if q else 4, stage="hist-inplace")
+    run.hist("C04ops", 3 if q else 4, nslots=2, maxiters=4, docs_per=2 if q else 1, stage="hist-inplace")
 
 
 SHARE_CALLS = {"Select", "Evaluate", "StringJoin", "Concat", "Matches", "Compile"}
